@@ -11,7 +11,7 @@ from .c15_programs import (COVER, ERRORS, NONFINITE, random_program, literal_edg
 
 TRUSTED = [
     "Coq 8.16.1 kernel (coqc, vm_compute); no axioms: every theorem is 'Closed under the global context'",
-    "theorems about arbitrary documents (c15_de_wt, c15_reserialise_stable, c15_staged_eq_direct_docs) assume distinct object keys (jnodup): on duplicate keys real serde errors (struct) or keeps the last entry (map), the model keeps the first; tested on edited documents every run",
+    "theorems about arbitrary documents (c15_de_wt, c15_reserialise_stable, c15_staged_eq_direct_docs) have no side condition on the document; that the model's `de` is serde's on such documents (repeated key: error for a struct field, last wins in a map, ignored when unknown; integer token read as float up to 2^53; absent / null optional fields) is validated on edited documents every run, not proved; integers beyond 2^53 in a float position and non-Display VersionReq texts are outside the model",
     "translators vplib/translate/gen_serde.py (type/attribute scanner over pr/*.rs, lr.rs, span.rs, generic.rs, ir/rq/*.rs, ir/generic.rs, ir/pl/extra.rs; fail closed on unmodelled attributes / type constructors; shape check of the hand-written Span and Ident impls) and gen_entry.py (call chains of lib.rs)",
     "modelled, not verified: coq/Model/Serde.v re-states serde-derive's rules (externally tagged enums, flatten of an enum through FlatMapSerializer/FlatMapDeserializer, skip_serializing_if, default, missing Option field = None); validated on every run against real serde on the implementation's own JSON and on descriptor-generated values",
     "serde_json's text layer (escaping, number printing and parsing: a finite f64 survives print/parse; ryu) and semver::VersionReq's parse . display = id",
@@ -127,18 +127,23 @@ def _set(j, path, new):
 
 
 def perturb(j, rng):
-    """one edit of a document that a hand-written client could make, keeping object keys distinct:
-    reorder keys / drop a key / add an unknown key / null a value / change a scalar's kind / drop or add an array element"""
+    """one edit of a document that a hand-written client could make: reorder keys / drop a key / add an unknown key /
+    repeat a key (same or another value, anywhere in the object) / null a value / change a scalar's kind (integers up to 2^53
+    included: serde reads them where a float is expected) / drop or add an array element"""
     paths = list(_paths(j))
     objs = [p for p in paths if isinstance(_get(j, p), tuple) and _get(j, p)[1]]
     arrs = [p for p in paths if isinstance(_get(j, p), list)]
-    kind = rng.choice(["shuffle", "shuffle", "drop", "drop", "unknown", "null", "null", "scalar", "arr-drop", "arr-dup"])
-    if kind in ("shuffle", "drop", "unknown") and objs:
+    kind = rng.choice(["shuffle", "shuffle", "drop", "drop", "unknown", "dup-key", "dup-key", "null", "null", "scalar", "scalar", "arr-drop", "arr-dup"])
+    if kind in ("shuffle", "drop", "unknown", "dup-key") and objs:
         p = rng.choice(objs); kvs = list(_get(j, p)[1])
         if kind == "shuffle":
             rng.shuffle(kvs)
         elif kind == "drop":
             kvs.pop(rng.randrange(len(kvs)))
+        elif kind == "dup-key":
+            k0, x0 = rng.choice(kvs)
+            others = [x for _, x in kvs]
+            kvs.insert(rng.randrange(len(kvs) + 1), (k0, rng.choice([x0, x0, rng.choice(others), None, "x"])))
         else:
             kvs.insert(rng.randrange(len(kvs) + 1), ("zz_unknown", rng.choice([1, "x", None, [], ("obj", [])])))
         return _set(j, p, ("obj", kvs)), kind
@@ -154,8 +159,7 @@ def perturb(j, rng):
     p = rng.choice(paths)
     if kind == "null":
         return _set(j, p, None), "null"
-    # never an integer: serde reads an integer where a float is expected (not modelled, see design)
-    return _set(j, p, rng.choice(["str", True, "1:0-1", [], ["a", "b"], "Null", 1.5])), "scalar"
+    return _set(j, p, rng.choice(["str", True, "1:0-1", [], ["a", "b"], "Null", 1.5, 0, 3, -3, 2 ** 53, -(2 ** 53), 12345678901])), "scalar"
 
 
 def canon_maps(v):
@@ -390,10 +394,9 @@ def run():
         # -- accept / reject must agree, and when both accept, real serde's re-serialisation is the model's
         hit_before = set(env.hit)
         preqs, pmetas = [], []
+        edited_small = []
         for kind, v, j in metas[:ck.n(700, 3000)]:
             j2, how = perturb(j, ck.rng)
-            if not jnodup(j2):
-                continue
             if any(isinstance(_get(j2, p), tuple) and any(k == "version" and isinstance(x, str) and x not in S.VERSION_REQS for k, x in _get(j2, p)[1])
                    for p in _paths(j2)):
                 # semver::VersionReq is a trusted opaque codec: its model is `any string`, meant for texts that ARE a
@@ -407,6 +410,8 @@ def run():
                 mv = None; why = str(ex)
             preqs.append({"kind": kind, "json": S.dumps(j2)})
             pmetas.append((kind, how, mv, why))
+            if S.json_size(j2) <= 100:
+                edited_small.append((kind, how, j2, mv))
         env.hit = hit_before     # edited documents do not count towards descriptor coverage
         pans = harness("c15_reser", preqs)
         for (kind, how, mv, why), a, rq_ in zip(pmetas, pans, preqs):
@@ -476,6 +481,39 @@ def run():
                     ck.violation("python mirror and Coq model disagree on de", case); continue
                 ck.stat("coq-model", "agree")
             ck.sample({"stream": "coq-model", "json": S.dumps(sample[0][2])[:300], "coq_result": "de = Some v, ser v = json"})
+
+    # the Coq `de` itself on edited documents (repeated keys, integer tokens, absent / unknown / reordered keys): accept / reject
+    # and the value must be the mirror's, which stream 3b compared with real serde
+    if env is not None and not stale and pr["ok"] and edited_small:
+        ck.rng.shuffle(edited_small)
+        acc = [e for e in edited_small if e[3] is not None][:ck.n(24, 100)]
+        rej = [e for e in edited_small if e[3] is None][:ck.n(24, 100)]
+        es = acc + rej
+        exprs = ["(match de GenSerde.env GenSerde.%s %s with Some v => (true, v) | None => (false, VNone) end)"
+                 % ("root_pl" if kind == "pl" else "root_rq", S.coq_json(j2)) for kind, how, j2, mv in es]
+        try:
+            vals = coq_eval(COQ_HEADER, exprs)
+        except RuntimeError as ex:
+            vals = None
+            ck.violation("Coq evaluation of the serde model failed (edited documents)", {"kind": "coq-eval", "error": str(ex)[-800:]})
+        for (kind, how, j2, mv), r in zip(es, vals or []):
+            ck.count("coq-model-edited", kind + "|" + S.dumps(j2)[:4000])
+            case = {"kind": kind, "edit": how, "json": S.dumps(j2)[:1200]}
+            if r is None:
+                ck.violation("no Coq result for an edited document", case); continue
+            ok_de, cv = r
+            if ok_de != (mv is not None):
+                case["got"] = {"coq": "accepts" if ok_de else "rejects", "mirror": "accepts" if mv is not None else "rejects"}
+                ck.violation("Coq model and python mirror disagree on accepting an edited document (%s)" % how, case); continue
+            if ok_de:
+                try:
+                    pv = S.value_of_term(cv)
+                except ValueError as ex:
+                    ck.violation("cannot read Coq value: %s" % ex, case); continue
+                if S.norm_value(pv) != S.norm_value(mv):
+                    case["got"] = {"coq": repr(pv)[:600], "python": repr(mv)[:600]}
+                    ck.violation("python mirror and Coq model disagree on de of an edited document (%s)" % how, case); continue
+            ck.stat("coq-model-edited", how + (":accept" if ok_de else ":reject"))
 
     # ------------------------------------------------------------------ 5. staged vs direct: 12 dialects x {format} x {signature}
     sprogs = progs if ck.thorough else (COVER + list(POOL)[:20] + ERRORS + NONFINITE + edges[::3] + rels + crefs + rnd[:40])
